@@ -69,6 +69,17 @@ def commutes(kind, p, plain):
         chk(f">= {o!r}", lambda x: x >= o)
         chk(f"+ {o!r}", lambda x: x + o)
         chk(f"dict[{o!r}]", lambda x: {x: 1}.get(o))
+    # two parsed values compare with each other exactly as their plain values do (a NaN is not equal to another NaN, equal values
+    # are equal, collections of them behave alike)
+    try:
+        q_param, q_plain = type(p)(plain), type(plain)(plain) if not (kind == "Float" and math.isnan(plain)) else float("nan")
+        for nm, f in (("==", lambda a, b: a == b), ("!=", lambda a, b: a != b), ("<=", lambda a, b: a <= b), ("in list", lambda a, b: a in [b]),
+                      ("list ==", lambda a, b: [a] == [b]), ("dict ==", lambda a, b: {"k": a} == {"k": b}), ("set size", lambda a, b: len({a, b}))):
+            got, want = f(p, q_param), f(plain, q_plain)
+            if got != want:
+                probs.append(f"two parsed values: {nm} gives {got!r}, the built-in values give {want!r}")
+    except Exception as e:  # noqa: BLE001
+        probs.append(f"comparing two parsed values raised {type(e).__name__}: {e}")
     if not (kind == "Float" and math.isnan(plain)):
         chk("hash", hash)          # hash(nan) is identity-based since Python 3.10: not comparable between two objects
     chk("str", str)
